@@ -20,7 +20,8 @@ RULE = ("composed-stack exploration: client A sets a state vector and calls appl
         "and device-id alphabets. Environment (E2, deviation-bounded DFS over choice points owned by the simulated device): per "
         "reply, delivery in separate segments / coalesced / cut at every byte offset / byte by byte, and an unsolicited truthful "
         "state report (frame type 05 or 04), a duplicate of the reply or an unsolicited B5 notification before and/or after it; on V3 "
-        "optionally an idle period past the 12 h authentication lifetime between two applies. "
+        "optionally an idle period past the 12 h authentication lifetime between two applies; optionally a second writer that changes "
+        "the device before A applies its unchanged state again. "
         "Oracle: reference-device state == applied vector; A's and B's public attributes == device state. "
         "state = (vector, protocol, choice prefix); transition = one choice point answered")
 ASSUMPTIONS = ["unsolicited reports are truthful", "segments of one reply arrive 1 microsecond apart and before the read timeout",
@@ -157,6 +158,17 @@ def execute(vec, version, ch: Chooser, cred=3, dev_id=0x0000_A1B2_C3D4_E5F6, cut
             await asyncio.sleep(0.05)
         snap_a = diff_view(client_view_of(model.state), a)
         await rig.connect(b)
+        if ch.pick("two-writers", 2):
+            # another client changes the device behind A's back; A then applies its (unchanged) state again
+            dz.apply_to_client(b, pre)
+            await b.apply()
+            await asyncio.sleep(0.05)
+            await a.apply()
+            await asyncio.sleep(0.05)
+            if a.display_on != vec["display"]:
+                await a.toggle_display()
+                await asyncio.sleep(0.05)
+            snap_a = diff_view(client_view_of(model.state), a)
         await b.refresh()
         return snap_a
 
